@@ -64,6 +64,9 @@ impl<'a> G<'a> {
             5 => {
                 if in_loop && self.rng.chance(1, 2) {
                     if self.rng.chance(1, 2) { tag("break", vec![]) } else { tag("continue", vec![]) }
+                } else if in_proc && !in_loop && self.rng.chance(1, 6) {
+                    // a stray break/continue: escaping the procedure body it becomes an error
+                    if self.rng.chance(1, 2) { tag("break", vec![]) } else { tag("continue", vec![]) }
                 } else if in_proc && self.rng.chance(1, 2) {
                     tag("return", vec![self.expr(1)])
                 } else {
